@@ -1,7 +1,11 @@
 #!/bin/bash
-# every seeded change against the check of its own property, two seeds, quick tier -> seeded/RESULTS.txt
-out=/verif/seeded/RESULTS.txt; : > $out
-for id in C01 C02 C03 C04 C05 C06 C07 C08 C09 C10 C11 C12 C13 C14 C15 C16 C17 C18 C19 C20; do
-  for s in 1 2; do VERIF_SEED=$s /verif/lib/run_seeded.sh $id $id 2>&1 | grep -v "^\[build" >> $out; done
+# every seeded change (all rounds: seeded/<dir>/patch.diff) against the check of its own property, quick tier -> seeded/RESULTS.txt
+# usage: lib/seeded_matrix.sh [seeds...]   (default: 1)      env ONLY="C05 C05-r2A" restricts to the named directories
+out=/verif/seeded/RESULTS.txt; [ -z "$APPEND" ] && : > $out
+seeds=${@:-1}
+for d in /verif/seeded/*/; do id=$(basename $d); [ -f $d/patch.diff ] || continue
+  [ -n "$ONLY" ] && ! echo " $ONLY " | grep -q " $id " && continue
+  prop=${id:0:3}
+  for s in $seeds; do VERIF_SEED=$s /verif/lib/run_seeded.sh $id $prop 2>&1 | grep -v "^\[build" >> $out; done
 done
 echo DONE >> $out
